@@ -629,4 +629,19 @@ theorem request_completes {c : Cfg} {s : St} {ls : List Label} (hr : RunWF c ini
   · have := hv.1
     split at this <;> omega
 
+/-- **single_consumer** — a promise is a one-slot channel, so a result can be received once. In every
+    reachable state no promise is read by two chain/join tasks (`consumed` lists the inputs of all of
+    them, without repetition), the promises the idle handler treats as chained are among them, and —
+    with `InvTop` — the executor never waits for one of them. This is what allows the model to keep
+    `delivered` as a log instead of emptying buffers; an execution in which pagination.go hands one
+    promise to two chain calls (seeded change C15-5: a memoised edge promise shared by `totalCount` and
+    `pageInfo`) is not an execution of the model — the acceptor rejects the second `chain` label. -/
+theorem single_consumer {c : Cfg} {s : St} (h : Reachable c s) :
+    s.consumed.Nodup ∧ (∀ p ∈ s.chained, p ∈ s.consumed) ∧
+    (∀ t ∈ s.running, ∀ p ∈ t.waits, p < t.id) := ⟨h.invK.nodup, h.invK.chainedSub, h.inv1.waits⟩
+
+/-- The acceptor on the shape of C15-5: the second chain on promise 0 is label 2. -/
+example : runFrom ⟨true⟩ init [.go 0 none, .chain 1 [0], .chain 2 [0]] 0 = .error 2 := by rfl
+
+
 end ApiFu.C15
